@@ -24,4 +24,7 @@ def run(F, tier):
     accept.u6(rep, F, "amount")
     accept.u7(rep, F, "amount")
     emit.e1(rep, F, "amount")
+    # the currency -> decimal places table is the oracle of N2: it is itself compared with the reviewed table
+    from . import v4
+    v4.v3(rep, F, only=r"get_currency_decimals$")
     return rep
